@@ -59,7 +59,9 @@ def anchor_functions(repo: Repo, prop: str, extra_files: Iterable[str] = ()) -> 
 
 def _is_stub(node: ast.AST) -> bool:
   body = getattr(node, 'body', [])
-  return all(isinstance(st, (ast.Pass, ast.Raise)) or (isinstance(st, ast.Expr) and isinstance(st.value, ast.Constant)) for st in body)
+  # nothing but pass / docstring / constant bookkeeping / an unconditional raise: the function does not implement anything
+  return all(isinstance(st, (ast.Pass, ast.Raise)) or (isinstance(st, ast.Expr) and isinstance(st.value, ast.Constant)) or
+             (isinstance(st, ast.Assign) and isinstance(st.value, ast.Constant)) for st in body)
 
 
 def _params(fi: FuncInfo) -> List[str]:
